@@ -396,8 +396,12 @@ package html
 //@   opaque HasNestedNode, Document.Individuals
 //@   oncall HasNestedNode check about-this-node-and-individual: data(arg0) == individual && arg1 == node
 //@   oncall HasNestedNode do has = result; nAsk = nAsk + 1
-//@   loop 1 iter asks-each-and-goes-on-only-after-no: nAsk == old(nAsk) + 1 && !has
-//@   ensures owner-contains-the-node: implies(result != nil, has)
+// (the individual ITSELF owns the node too: Document.Places records a PLAC that
+// is a direct child of an individual against the individual - repaired, fix:
+// commit; the comparison comes first, so HasNestedNode is asked only about
+// individuals that are not the node)
+//@   loop 1 iter asks-each-and-goes-on-only-after-no: nAsk == old(nAsk) + 1 && !has && data(node) != individual
+//@   ensures owner-is-or-contains-the-node: implies(result != nil, has || data(node) == result)
 
 // C17: the list of places. In hide mode the text of a place is read only after
 // the owner of the node the place hangs on was looked up - for exactly this
@@ -427,6 +431,28 @@ package html
 //@   oncall strings.ToLower do lowered = result; nLower = nLower + 1
 //@   loop 1 invariant one-key-per-pretty-name: nPretty == nLower
 //@   oncall regexp.Regexp.ReplaceAllString check key-from-the-lowered-pretty-name: arg0 == alnumOrDashRegexp && arg1 == lowered && nLower == nPretty
+
+// C19 (links point at pages that are written): the page a surname links to is
+// the index page of the letter getIndexLetterForSurname gives - the ONE function
+// that also decides on which index page an individual is listed (repaired, fix:
+// commit: the link used the first byte of the surname, '1st' and 'Émile' were
+// linked to individuals-1.html / individuals-Ã.html, which are never written).
+//@ func SurnameLink.WriteHTMLTo
+//@   props C19
+//@   ghost L int = 0
+//@   ghost nL int = 0
+//@   opaque getIndexLetterForSurname, PageIndividuals
+//@   oncall getIndexLetterForSurname check of-this-surname: arg0 == c.surname
+//@   oncall getIndexLetterForSurname do L = result; nL = nL + 1
+//@   oncall PageIndividuals check the-page-that-lists-the-surname: nL == 1 && arg0 == L
+//@ func getIndexLetter
+//@   props C19
+//@   inline
+//@   ghost L int = 0
+//@   ghost nL int = 0
+//@   opaque getIndexLetterForSurname
+//@   oncall getIndexLetterForSurname do L = result; nL = nL + 1
+//@   ensures the-same-letter-function: nL == 1 && result == L
 
 // C19 (no two pages share a name, links use the names of the files): page
 // names of individuals are made unique AGAINST the place keys, so the places
